@@ -554,18 +554,19 @@ def World.onResult (w : World) (toks : List String) : World :=
   if r == "err" then w.fail "C08" "query" s!"peer {p}: query {" ".intercalate q} failed" else
   let impl := namesToNums r
   let s := w.store p
-  -- an entry whose payload is not an operation at all is not part of what an event log lists: windows
-  -- are taken over what can be listed (F48: the listing used to END at such an entry, silently)
-  let ops (l : List Entry) : List Entry := l.filter (fun e => !w.badOps.contains e.hash)
-  let model := (queryWin (ops (values s.log)) o).map (·.hash)
+  -- an entry whose payload is not an operation at all is not part of what an event log lists (F48: the
+  -- listing used to END at such an entry, silently); a bound is a POSITION in the log and may be such an
+  -- entry (review of F48: looked up among the operations only, it was not found and the window started
+  -- at the first entry)
+  let isOp : Entry → Bool := fun e => !w.badOps.contains e.hash
+  let model := (queryWinOps isOp (values s.log) o).map (·.hash)
   let w := if model != impl then w.fail "corr" "result" s!"peer {p}: query model {showNums model}, implementation {showNums impl}" else w
   -- C08: exact window of the implementation's own listing (C12 when the log holds such an entry: what
   -- a payload that is not an operation may change is nothing)
   let all := w.entriesOf (w.obsOf p).values
-  let listing := ops all
-  let want := (windowSpec listing o).map (·.hash)
-  let prop := if all.length != listing.length then "C12" else "C08"
-  if want != impl then w.fail prop "window" s!"peer {p}: {" ".intercalate (q.drop 2)} over {showNums (listing.map (·.hash))} returned {showNums impl}, window is {showNums want}" else w
+  let want := (windowSpecOps isOp all o).map (·.hash)
+  let prop := if all.any (fun e => !isOp e) then "C12" else "C08"
+  if want != impl then w.fail prop "window" s!"peer {p}: {" ".intercalate (q.drop 2)} over {showNums (all.map (·.hash))} (not operations: {showNums (sortNums w.badOps)}) returned {showNums impl}, window is {showNums want}" else w
 
 def World.onGot (w : World) (toks : List String) : World :=
   let p := peerNum (toks.getD 1 "")
